@@ -32,7 +32,7 @@ REPO = os.environ.get('ODAK_REPO', '/repo')
 FILE = 'Holograms.lean'
 TC, NC, NI = 'odak/learn/wave/classical.py', 'odak/wave/classical.py', 'odak/wave/__init__.py'
 
-LEAN_TYPE = {'cf': 'Fld (Cx α)', 'rf': 'Fld α', 'real': 'α', 'cx': 'Cx α', 'cstack': 'Nat → Fld (Cx α)', 'rstack': 'Nat → Fld α'}
+LEAN_TYPE = {'cf': 'Fld (Cx α)', 'rf': 'Fld α', 'real': 'α', 'cx': 'Cx α', 'cstack': '(Nat → Fld (Cx α))', 'rstack': '(Nat → Fld α)'}
 POINTWISE = {      # python name -> (lean name torch, lean name numpy)
     'set_amplitude': ('setAmplitudeT', 'setAmplitudeN'), 'calculate_amplitude': ('calcAmplitudeT', 'calcAmplitudeN'),
     'calculate_phase': ('calcPhaseT', 'calcPhaseN'), 'generate_complex_field': ('genFieldT', 'genFieldN'),
@@ -80,29 +80,52 @@ def assigned_names(stmts):
     return out
 
 
-def read_before_write(stmts, candidates):
-    """the candidates a straight-line block reads before it assigns them by a plain `name = ...` (conservative inside compound statements)"""
-    out, killed = [], set()
-    for st in stmts:
-        if isinstance(st, ast.Assign):
-            loads = names_loaded(st.value)
-            for t in st.targets:
-                if not isinstance(t, ast.Name):
-                    loads |= names_loaded(t)
-                    b = t
-                    while isinstance(b, ast.Subscript):
-                        b = b.value
-                    if isinstance(b, ast.Name):
-                        loads.add(b.id)
-        else:
-            loads = names_loaded(st)
+def read_before_write(stmts, candidates, tests=None):
+    """the candidates a block reads before it has certainly assigned them by a plain `name = ...` (an assignment inside a nested loop or
+    inside one arm of an `if` is not certain)"""
+    out = []
+
+    def note(loads, killed):
         for n in sorted(loads):
             if n in candidates and n not in killed and n not in out:
                 out.append(n)
-        if isinstance(st, ast.Assign):
-            for t in st.targets:
-                if isinstance(t, ast.Name):
-                    killed.add(t.id)
+
+    def visit(stmts, killed):
+        for st in stmts:
+            if isinstance(st, ast.For):
+                note(names_loaded(st.iter), killed)
+                inner = set(killed)
+                if isinstance(st.target, ast.Name):
+                    inner.add(st.target.id)
+                visit(st.body, inner)
+                continue
+            if isinstance(st, ast.If) and tests is not None and ast.unparse(st.test) in tests:
+                visit(st.body if tests[ast.unparse(st.test)] else st.orelse, killed)       # a test the job resolves: only that arm runs
+                continue
+            if isinstance(st, ast.If):
+                note(names_loaded(st.test), killed)
+                k1, k2 = set(killed), set(killed)
+                visit(st.body, k1)
+                visit(st.orelse, k2)
+                killed |= (k1 & k2)
+                continue
+            if isinstance(st, ast.Assign):
+                loads = names_loaded(st.value)
+                for t in st.targets:
+                    if not isinstance(t, ast.Name):
+                        loads |= names_loaded(t)
+                        b = t
+                        while isinstance(b, ast.Subscript):
+                            b = b.value
+                        if isinstance(b, ast.Name):
+                            loads.add(b.id)
+                note(loads, killed)
+                for t in st.targets:
+                    if isinstance(t, ast.Name):
+                        killed.add(t.id)
+            else:
+                note(names_loaded(st), killed)
+    visit(list(stmts), set())
     return out
 
 
@@ -538,11 +561,11 @@ class Interp:
         uses_index = loopvar in names_loaded(ast.Module(body=st.body, type_ignores=[]))
         assigned = assigned_names(st.body)
         storable = lambda n: n in self.env and self.env[n].kind in LEAN_TYPE
-        rbw = read_before_write(st.body, assigned)
+        rbw = read_before_write(st.body, assigned, self.job.tests)
         for n in rbw:
             if n not in self.env:
                 raise TranslateError('%s: %s is read in the first pass before anything assigns it' % (src, n))
-        live = read_before_write(rest, assigned)          # assigned in the loop and read after it before being assigned again
+        live = read_before_write(rest, assigned, self.job.tests)          # assigned in the loop and read after it before being assigned again
         carried = [n for n in assigned if n in rbw or (n in live and n in self.env)]
         for n in carried:
             if not storable(n):
@@ -602,10 +625,10 @@ class Interp:
             raise TranslateError('%s: a loop without loop-carried variables is not modelled' % src)
         if uses_index:
             self.lets.append((step_name, '%s → Nat → %s' % (self.par(in_ty), self.par(in_ty)),
-                              'fun s i => %s' % carry_of('(%s s i)' % bname)))
+                              'fun s i => let o := (%s s i); %s' % (bname, carry_of('o'))))
             iterate = lambda n: '(Fld.iterateIdx %s %s %s)' % (step_name, n, init)
         else:
-            self.lets.append((step_name, '%s → %s' % (self.par(in_ty), self.par(in_ty)), 'fun s => %s' % carry_of('(%s s)' % bname)))
+            self.lets.append((step_name, '%s → %s' % (self.par(in_ty), self.par(in_ty)), 'fun s => let o := (%s s); %s' % (bname, carry_of('o'))))
             iterate = lambda n: '(Fld.iterate %s %s %s)' % (step_name, n, init)
         if late:
             # the last pass written out: describes n ≥ 1 passes
@@ -796,6 +819,14 @@ def jobs():
             ['dx', 'wavelength', 'slm_range', 'propagation_type'], {none_test('initial_phase'): True}, 'dx', ['cf', 'cf'],
             'NumPy `gerchberg_saxton` (%s), `initial_phase = None`: (hologram, reconstruction); `randomPhase` is the array '
             '`np.pi * np.random.random(shape)` drawn by `add_random_phase`' % NC),
+        Job('gs3dNumpyN', 'numpy', NC, 'gerchberg_saxton_3d',
+            ['fields', 'n_iterations', 'distances', 'dx', 'wavelength', 'slm_range', 'propagation_type', 'initial_phase', 'target_type', 'coefficients'],
+            [('fields', 'cstack', ('planes', 'n', 'm')), ('n_iterations', 'nat'), ('distances', 'reals', 'planes')],
+            {'initial_phase': None, 'target_type': 'no constraint', 'coefficients': None},
+            ['dx', 'wavelength', 'slm_range', 'propagation_type'],
+            {none_test('initial_phase'): True, "target_type == 'double constraint'": False, "target_type == 'no constraint'": True}, 'dx', ['cf'],
+            'NumPy `gerchberg_saxton_3d` (%s), `initial_phase = None`, `target_type = \'no constraint\'`: the returned hologram; `fields k` / '
+            '`distances k` are the target field and the distance of plane `k < planes`' % NC),
     ]
 
 
